@@ -917,6 +917,7 @@ func (s *Sched) do(c Choice) Choice {
 		s.workerParked = false
 		s.workerCh <- 2
 		s.pending = 0 // the runner is expected to die: do not wait for it to take another batch
+		survived := false
 		deadline := time.Now().Add(300 * time.Millisecond)
 		for time.Now().Before(deadline) {
 			select {
@@ -935,7 +936,18 @@ func (s *Sched) do(c Choice) Choice {
 					t.resume <- struct{}{}
 					s.settle(t.id)
 				}
+				if t.finished && t.resp.OK && !s.persisted(t.waitID) {
+					survived = true // acknowledged although its entry is not on disk: the runner swallowed the failure
+				}
 			}
+		}
+		if survived {
+			// the runner did not die of the store failure: it acknowledged a batch that was never written and goes on.
+			// Nothing restarts, so the engine keeps chaining on its in-memory last log: let the execution continue
+			// and show what reaches the disk next.
+			s.Crashes++
+			s.Trace = append(s.Trace, Event{Tid: -1, Point: "store.failure.survived"})
+			break
 		}
 		s.crash()
 	case "crash":
